@@ -206,6 +206,14 @@ func c01GenProgs(args []string) {
 				g.Stats[k] += v
 			}
 			mode = "mode_twin_branches"
+		} else if gm == "per_fork_flags" || (gm == "" && rng.Intn(10) == 0) {
+			// the parametric family "a run-time condition per fork"
+			var st map[string]int
+			p, st = pgen.GenPerForkFlags(rng, stagecmd)
+			for k, v := range st {
+				g.Stats[k] += v
+			}
+			mode = "mode_per_fork_flags"
 		} else if gm == "preflight_nested" || (gm == "" && rng.Intn(12) == 0) {
 			// the parametric family "preflight gates everything"
 			var st map[string]int
